@@ -38,6 +38,19 @@ type ServerCfg struct {
 	// depend on whether a later option replaces or extends an earlier one.
 	Params2 map[string]string `json:"params2,omitempty"`
 	Version string            `json:"version,omitempty"`
+	// ValCtxDone: whenever the validator does not accept, the context it returns
+	// has already ended (the common `ctx, cancel := context.WithTimeout(...);
+	// defer cancel()` shape of a validator that looks the account up remotely)
+	ValCtxDone bool `json:"val_ctx_done,omitempty"`
+	// Sibling ("before" | "after"): a second Server is built in the same process
+	// from the very same option values (with one more middleware of its own in
+	// front), before or after the server under test, and never serves: option
+	// values are plain values and may be reused; configuring one server never
+	// changes another
+	Sibling string `json:"sibling,omitempty"`
+	// SameAddr: every connection's RemoteAddr() prints the same text (peers on a
+	// unix-domain socket, an in-memory listener, a local proxy)
+	SameAddr bool `json:"same_addr,omitempty"`
 	TLS     string            `json:"tls,omitempty"` // "" | empty | certs
 	// AuthFirst: an earlier SessionAuthStrategy option ("accept-all": a strategy
 	// that lets everybody in) which the option configured by Auth follows and
